@@ -6,7 +6,9 @@
 //!            hash lower-case hex u64; may be empty)
 //!   field 2  start index, decimal u16
 //!   field 3  half-move clock, decimal u32 as held by the board; cast with `as u16` exactly like search.rs
-//! Observation: the count in decimal, `PANIC` (index out of bounds), or `BADCASE` for a malformed line.
+//! Observation: the count in decimal, or `BADCASE` for a malformed line.  Since /repo fix aca2b0d (the history is
+//! a growing Vec, reads beyond its length give 0) no index panics; `PANIC` would be reported if one ever did again
+//! and is then a mismatch against the model (historic defect D16: index >= 5000).
 
 use inkayaku_engine_core::verif::History;
 
@@ -57,8 +59,7 @@ fn parse(line: &str) -> Option<(Vec<(u16, u64)>, u16, u32)> {
 pub fn run(line: &str) -> String {
     let Some((sets, start, half)) = parse(line) else { return "BADCASE".to_string() };
     crate::util::guarded(move || {
-        // 40 kB array: keep it off the (possibly small) thread stack
-        let mut history: Box<History> = Box::default();
+        let mut history = History::default();
         for (index, hash) in sets {
             history.set(index, hash);
         }
